@@ -44,13 +44,14 @@ type Ctx struct {
 	Rng    *rand.Rand
 	Res    Result
 
-	nt       map[string]struct{}
-	imports  string
-	caseType string
-	okFn     string
-	cases    []string
-	caseInfo []string // one JSON line per case, for replays
-	shard    int
+	nt        map[string]struct{}
+	imports   string
+	caseType  string
+	okFn      string
+	cases     []string
+	caseInfo  []string // one JSON line per case, for replays
+	shard     int
+	caseBytes int
 }
 
 func newCtx(id string, seed uint64, tier, out, replay string) *Ctx {
@@ -81,11 +82,11 @@ func (c *Ctx) Pick(q, t int) int {
 	return q
 }
 
-func (c *Ctx) Count(kind string)            { c.Res.Distribution[kind]++ }
-func (c *Ctx) CountN(kind string, n int)    { c.Res.Distribution[kind] += n }
-func (c *Ctx) Note(f string, a ...any)      { c.Res.Notes = append(c.Res.Notes, fmt.Sprintf(f, a...)) }
-func (c *Ctx) Eval()                        { c.Res.Evaluations++ }
-func (c *Ctx) NonTrivial(key string)        { c.nt[key] = struct{}{} }
+func (c *Ctx) Count(kind string)         { c.Res.Distribution[kind]++ }
+func (c *Ctx) CountN(kind string, n int) { c.Res.Distribution[kind] += n }
+func (c *Ctx) Note(f string, a ...any)   { c.Res.Notes = append(c.Res.Notes, fmt.Sprintf(f, a...)) }
+func (c *Ctx) Eval()                     { c.Res.Evaluations++ }
+func (c *Ctx) NonTrivial(key string)     { c.nt[key] = struct{}{} }
 func (c *Ctx) Sample(s any) {
 	if len(c.Res.Samples) < 6 {
 		c.Res.Samples = append(c.Res.Samples, s)
@@ -113,8 +114,9 @@ func (c *Ctx) Case(term string, info any) {
 	b, _ := json.Marshal(info)
 	c.cases = append(c.cases, term)
 	c.caseInfo = append(c.caseInfo, string(b))
+	c.caseBytes += len(term)
 	c.Res.CaseCount++
-	if len(c.cases) >= 400 {
+	if len(c.cases) >= 400 || c.caseBytes > 600000 {
 		c.flushCases()
 	}
 }
@@ -140,6 +142,7 @@ func (c *Ctx) flushCases() {
 	_ = os.WriteFile(filepath.Join(c.Out, name+".info"), []byte(strings.Join(c.caseInfo, "\n")+"\n"), 0o644)
 	c.Res.CaseFiles = append(c.Res.CaseFiles, name)
 	c.cases, c.caseInfo = nil, nil
+	c.caseBytes = 0
 }
 
 func (c *Ctx) finish() error {
